@@ -25,9 +25,18 @@ class CannotInline(Exception):
     pass
 
 
+_KNOWN = {}
+
+
+def _cache_known(fh):
+    if 'v' not in _KNOWN:
+        _KNOWN['v'] = {ln.strip() for ln in fh if ln.strip() and not ln.startswith('#')}
+    return _KNOWN['v']
+
+
 def load_known():
     with open(KNOWN_FILE) as fh:
-        return {ln.strip() for ln in fh if ln.strip() and not ln.startswith('#')}
+        return _cache_known(fh)
 
 
 def function_index(tree):
@@ -1131,7 +1140,7 @@ def normalise(trees, known=None, sources=None):
                     break
         if hit:
             from .model import normalise_tree
-            changed[rel] = normalise_tree(ast.parse(sources[rel], filename=rel))     # fresh tree without parent links
+            changed[rel] = normalise_tree(ast.parse(sources[rel], filename=rel), rel)     # fresh tree without parent links
     # `return all(helper(x) for x in xs)` with a helper that needs statements: back to the loop form, where it can be inlined
     stmt_callees = {nm.split('.')[-1] for nm, c in callees.items() if not c.pure_expr and c.truth_expr is None}
     for rel, t in changed.items():
